@@ -25,6 +25,7 @@ from fractions import Fraction
 import z3
 
 P = (1 << 61) - 1
+SOM_BLOWUP = int(os.environ.get("VERIF_SOM_BLOWUP", "10"))
 SEED = int(os.environ.get("VERIF_SEED", "0") or 0)
 
 
@@ -109,6 +110,7 @@ class Ctx:
         self.calllog = []  # stub call log (atom names per call) for replay
         self.events = []  # free-form trace of the path for evidence samples
         self.values = None  # concrete mode: name -> float
+        self.concrete_failures = []
         self.eq_seen = []
         self.t0 = time.time()
         self.deadline = self.t0 + float(self.opts.get("path_budget_s", 600))
@@ -577,13 +579,13 @@ class _NegPin(SymBool):
 
 
 def _mkvar(name, control):
-    if CTX.mode == "concrete":
-        return float(CTX.values.get(name, 0.0))
     if name in CTX.pins:
         p = CTX.pins[name]
         if isinstance(p, str):
             return _mkvar(p, control)
-        return SymReal(c=frac(p))
+        return float(frac(p)) if CTX.mode == "concrete" else SymReal(c=frac(p))
+    if CTX.mode == "concrete":
+        return float(CTX.values.get(name, 0.0))
     (CTX.control if control else CTX.datavars).add(name)
     return SymReal(z3.Real(name), None, _name_fp(name), vname=name)
 
@@ -657,6 +659,35 @@ def _iroot(n, q):
         if c >= 0 and c**q == n:
             return c
     return None
+
+
+def norm2(vals):
+    """sqrt(sum v^2): atom keyed on the entries; sharing is justified entry by entry (cheap) instead of on the sum of squares."""
+    vals = [SymReal.lift(v) for v in vals]
+    if all(v.c is not None for v in vals):
+        tot = sum((v.c * v.c for v in vals), Fraction(0))
+        r = root(SymReal(c=tot), 2)
+        return r
+    key = ("norm2",) + tuple(sorted(v.fp for v in vals if not (v.c is not None and v.c == 0)))
+    if key in CTX.atoms:
+        v, arg0 = CTX.atoms[key]
+        a0 = sorted(arg0, key=lambda x: x.fp)
+        a1 = sorted([x for x in vals if not (x.c is not None and x.c == 0)], key=lambda x: x.fp)
+        for x, y in zip(a0, a1):
+            if x is not y:
+                CTX.atom_checks.append((x, y))
+        return v
+    name = CTX.fresh_name("norm")
+    CTX.datavars.add(name)
+    v = SymReal(z3.Real(name), None, _name_fp(name), vname=None)
+    nz = [x for x in vals if not (x.c is not None and x.c == 0)]
+    # r >= 0 and r^2 * D = sum_i n_i^2 * (D / d_i^2) with D the product of the squared denominators; kept lazily (only used with the path condition)
+    s = SymReal(c=Fraction(0))
+    for x in nz:
+        s = s + x * x
+    CTX.defs.append(z3.And(v.n >= 0, v.n * v.n * s.d == s.n))
+    CTX.atoms[key] = (v, nz)
+    return v
 
 
 def powk(base, k):
@@ -1001,6 +1032,15 @@ def _check(constraints, timeout_ms):
 def model_values(solver):
     m = solver.model()
     out = {}
+    for name in sorted(CTX.control | CTX.datavars):
+        if name in out:
+            continue
+        try:
+            v = m.eval(z3.Real(name), model_completion=True) if not any(d.name() == name for d in m.decls()) else None
+            if v is not None and z3.is_rational_value(v):
+                out[name] = [v.numerator_as_long(), v.denominator_as_long()]
+        except Exception:
+            pass
     for d in m.decls():
         v = m[d]
         try:
@@ -1036,8 +1076,17 @@ def _fpval(v):
     return str(v)
 
 
+def _concrete_fail(label, info, detail=None):
+    CTX.concrete_failures.append(dict(label=label, detail=detail))
+
+
 def prove(label, claim, info=None):
     """Obligation `claim` (a z3 Bool or SymBool) must hold on the current path: discharge its negation."""
+    if CTX.mode == "concrete":
+        CTX.stats["obligations"] += 1
+        if not bool(claim):
+            _concrete_fail(label, info)
+        return bool(claim)
     if isinstance(claim, bool):
         CTX.stats["obligations"] += 1
         if claim:
@@ -1096,6 +1145,15 @@ def prove_batch(items, info=None):
 
 def prove_equal(label, a, b, info=None):
     """a == b for SymReals (or numbers): staged discharge, DESIGN 1.1."""
+    if CTX.mode == "concrete":
+        CTX.stats["obligations"] += 1
+        fa, fb = float(a), float(b)
+        tol = CTX.opts.get("concrete_tol", 1e-6)
+        ok = (fa == fb) or abs(fa - fb) <= tol * (1.0 + abs(fa) + abs(fb))
+        if not ok or fa != fa or fb != fb:
+            _concrete_fail(label, info, dict(impl=fa, spec=fb))
+            return False
+        return True
     a, b = SymReal.lift(a), SymReal.lift(b)
     CTX.stats["obligations"] += 1
     tmo = CTX.opts.get("query_timeout_ms", 30000)
@@ -1111,7 +1169,7 @@ def prove_equal(label, a, b, info=None):
     d = diff_num(a, b)
     same_fp = a.fp == b.fp
     if same_fp:
-        ds = z3.simplify(d, som=True)
+        ds = z3.simplify(d, som=True, som_blowup=SOM_BLOWUP)
         if z3.is_rational_value(ds) and ds.numerator_as_long() == 0:
             CTX.stats["queries"] += 1
             CTX.stats["unsat"] += 1
@@ -1168,14 +1226,57 @@ def _search_witness(dnz, nz, tries=40):
 
 def _viol(label, solver, info, unknown=False, concrete=False, a=None, b=None):
     rec = dict(label=label, info=info, verdict="unknown" if unknown else "sat",
-               decisions=[(k, v, t) for k, v, t in CTX.decisions][-40:], pins={k: str(v) for k, v in CTX.pins.items()},
+               decisions=[(k, v, t) for k, v, t in CTX.decisions][-40:], pins={k: (v if isinstance(v, str) else [frac(v).numerator, frac(v).denominator]) for k, v in CTX.pins.items()},
                calllog=list(CTX.calllog), events=list(CTX.events)[-30:])
     if solver is not None:
         try:
-            rec["model"] = model_values(solver)
+            nice = _nicer_model(solver, a, b)
+            rec["model"] = model_values(nice if nice is not None else solver)
+            rec["model_is_robust"] = nice is not None
         except Exception as e:  # pragma: no cover
             rec["model_error"] = repr(e)
+    elif not unknown:
+        # a concrete refutation (no solver model needed): any model of the path condition is a witness
+        try:
+            r, s = _check(CTX.pc + CTX.defs, 5000)
+            if r == "sat":
+                rec["model"] = model_values(s)
+        except Exception:
+            pass
     return rec
+
+
+def _nicer_model(solver, a, b):
+    """Ask for a witness that survives float replay: values on a moderate scale and a visible gap |a-b| >= 1/32."""
+    cons = list(solver.assertions())
+    extra = []
+    for name in sorted(CTX.control | CTX.datavars):
+        if "!" in name:
+            continue
+        v = z3.Real(name)
+        extra.append(z3.And(v >= -8, v <= 8))
+    for name, lo in (("lr", "1/8"), ("eps", "1/16"), ("geps", "1/16")):
+        if name in CTX.control:
+            extra.append(z3.Real(name) >= z3.RealVal(lo))
+    for name in ("b1", "b2", "b3", "gb2", "mom", "damp"):
+        if name in CTX.control:
+            extra.append(z3.Or(z3.Real(name) <= z3.RealVal("7/8"), z3.Real(name) == 1))
+    if a is not None and b is not None:
+        d = diff_num(a, b)
+        den = z3.RealVal(1)
+        for x in (a, b):
+            for _, (ex, m) in x.df.items():
+                for _ in range(m):
+                    den = den * ex
+        extra.append(d * d * 1024 >= den * den)
+    s = z3.Solver()
+    s.set("timeout", 8000)
+    for c in cons + extra:
+        s.add(c)
+    t = time.time()
+    r = s.check()
+    CTX.stats["solver_s"] += time.time() - t
+    return s if r == z3.sat else None
 
 
 def prove_all_equal(label, pairs, info=None):
